@@ -491,4 +491,45 @@ UNITS += [
 """),
 ]
 
+# ---- PrunePlan::new: an index entry of a pack that was already seen is dropped and its index file marked as modified
+NEWP = "fn new(\n        used_ids: BTreeMap<(BlobType, BlobId), u8>,"
+UNITS += [
+    Unit(name="plan_new_dedup_unmarked", file=PR, kind="block", within=NEWP,
+         anchor="@closure:#1:.filter(|p|",
+         block_sig="fn plan_new_dedup_unmarked(p: &IndexPack, processed_packs: &mut VPackIdSet, modified: &mut bool) -> (r: bool)",
+         block_tail="",
+         functions=["commands::prune::PrunePlan::new (filter closure over the unmarked packs of an index file)"],
+         rewrites=[Rw("modified |= !no_duplicate;", "*modified = *modified || !no_duplicate;", why="|= on a captured bool -> assignment through the reference (block parameter)")],
+         contract="""
+    ensures
+        /*@first_entry_of_a_pack_is_kept*/ r == !old(processed_packs).s@.contains(p.id),
+        final(processed_packs).s@ == old(processed_packs).s@.insert(p.id),
+        /*@duplicate_marks_the_index_file_modified*/ *final(modified) == (*old(modified) || !r),
+"""),
+    Unit(name="plan_new_dedup_marked", file=PR, kind="block", within=NEWP,
+         anchor="@closure:#2:.filter(|p|",
+         block_sig="fn plan_new_dedup_marked(p: &IndexPack, processed_packs_delete: &mut VPackIdSet, modified: &mut bool) -> (r: bool)",
+         block_tail="",
+         functions=["commands::prune::PrunePlan::new (filter closure over the marked packs of an index file)"],
+         rewrites=[Rw("modified |= !no_duplicate;", "*modified = *modified || !no_duplicate;", why="|= on a captured bool -> assignment through the reference (block parameter)")],
+         contract="""
+    ensures
+        /*@first_marked_entry_of_a_pack_is_kept*/ r == !old(processed_packs_delete).s@.contains(p.id),
+        final(processed_packs_delete).s@ == old(processed_packs_delete).s@.insert(p.id),
+        *final(modified) == (*old(modified) || !r),
+"""),
+    # second pass: a marked entry of a pack that is also listed as live pack is dropped (the live entry wins)
+    Unit(name="plan_new_marked_but_live", file=PR, kind="block", within=NEWP,
+         anchor="@closure:index.packs.retain(|p|",
+         block_sig="fn plan_new_marked_but_live(p: &PrunePack, processed_packs: &VPackIdSet, modified: &mut bool) -> (r: bool)",
+         block_tail="",
+         functions=["commands::prune::PrunePlan::new (retain closure: marked entries of packs that are also listed as live)"],
+         rewrites=[Rw("modified |= duplicate;", "*modified = *modified || duplicate;", why="|= on a captured bool -> assignment through the reference (block parameter)")],
+         contract="""
+    ensures
+        /*@live_entries_always_stay*/ !p.delete_mark ==> r && *final(modified) == *old(modified),
+        /*@marked_entry_of_a_live_pack_is_dropped*/ p.delete_mark ==> r == !processed_packs.s@.contains(p.id) && *final(modified) == (*old(modified) || !r),
+"""),
+]
+
 META = {"not_covered": []}
